@@ -32,3 +32,21 @@ func init() {
 		p.Rules = append(p.Rules, Rule{pid + "/errors-checked", func(c *Ctx) { ruleResolveErrorsChecked(c, pid+"/errors-checked") }})
 	}
 }
+
+// The verdicts of unevaluatedItems / unevaluatedProperties are part of the 2020-12 validity relation (C01):
+// the annotation-flow rules of C07 are run for C01 as well.
+func init() {
+	p := Properties["C01"]
+	for _, sh := range []struct {
+		as, orig string
+		f        func(*Ctx)
+	}{
+		{"C01/annotation-sites", "C07/R1", ruleC07R1},
+		{"C01/annotation-handover", "C07/R2", ruleC07R2},
+		{"C01/complement", "C07/complement", ruleC07Complement},
+		{"C01/records", "C07/records", ruleC07Records},
+	} {
+		sh := sh
+		p.Rules = append(p.Rules, Rule{sh.as, func(c *Ctx) { runAs(c, sh.as, sh.orig, sh.f) }})
+	}
+}
